@@ -159,14 +159,14 @@ def literal_scan():
     return hits
 
 
-def deductive(res, agg):
+def deductive(res, agg, tier="quick"):
     hits = literal_scan()
     agg.vc("validation/bootstrapper.py", "no hard-coded default dimension name ('sample' / 'feature') in a method body", struct_vc(not hits, "; ".join(hits)))
     c = z3.Real("c")
     sgn = z3.If(c > 0, 1.0, z3.If(c < 0, -1.0, 0.0))
     from vf.sym.core import Ctx
     agg.vc(FN, "lemma: a series multiplied by the sign of its correlation correlates non-negatively (sign(c) * c >= 0)", prove_scalar(Ctx([]), sgn * c >= 0))
-    for B in (1, 2, 3):
+    for B in ((1, 2, 3) if tier == "quick" else (1, 2, 3, 4, 5, 6, 10)):
         cfg = f"n_bootstraps={B}"
         try:
             paths = trace(B)
@@ -415,7 +415,7 @@ def run(tier, seed):
                        "xr.corr is the Pearson correlation along the given dim (centres both arguments)"]
     res.trusted = ["CPython on proxies", "vf/sym/ldom structural proxies", "z3"]
     agg = Agg(res, "C20")
-    deductive(res, agg)
+    deductive(res, agg, tier)
     agg.flush()
     run_bounded(res, tier, seed)
     return res
